@@ -1106,6 +1106,11 @@ def cmp_apply(prog: Program) -> RuleResult:
         if not (left + ".value" in a and right not in a and right + ".value" in b and left not in b):
             note("arguments-from-the-binding", f"on the path [{guard}] the operator is applied to ({a[:70]}, {b[:70]}): the left argument must be read from the left operand's "
                                                 f"binding and the right argument from the right operand's")
+        if "set(" in a or "set(" in b:
+            # the collections-as-sets reading is for collections of values: a mapping turned into a set keeps its keys only
+            excluded = [k for k, v in val.items() if k[0] == "isinstance" and "Mapping" in str(k[2]) and v is False]
+            if not (any(left in str(k[1]) for k in excluded) and any(right in str(k[1]) for k in excluded)):
+                note("mappings-are-not-compared-by-their-keys", f"on the path [{guard}] both operands are turned into sets without excluding mappings")
         ncalls = [x for x in calls if isinstance(x, App) and x.fn == "self.operation"]
         if len(ncalls) != 1:
             note("applied-once", f"on the path [{guard}] the operator is applied {len(ncalls)} times")
@@ -1119,6 +1124,7 @@ def cmp_apply(prog: Program) -> RuleResult:
     for key, good in [("verdict-is-the-application", "on every path the result is self.operation(left value, right value)"),
                       ("arguments-from-the-binding", "left argument from the left operand's binding, right argument from the right operand's"),
                       ("applied-once", "the operator is applied exactly once per binding"),
+                      ("mappings-are-not-compared-by-their-keys", "operands are normalised to sets only where neither is a mapping"),
                       ("truth-recorded", "_is_false_ is the negation of the verdict"),
                       ("verdict-written-to-the-bindings", "the verdict is stored under the comparator's id")]:
         r.check(key not in bad, f"Comparator.apply_operation#{key}", site(f), f"{len(paths)} paths", good,
@@ -1135,8 +1141,23 @@ def _ep_bound(prog):
     return ep_bound(prog)
 
 
+def _live_iter(prog):
+    # the domain of a domain-less variable is enumerated lazily from the registry: a sweep between two of its steps must not make it skip
+    # a live instance (a satisfying assignment that is never reported)
+    from .c03 import live_iter
+
+    return live_iter(prog)
+
+
+def _hv_truth(prog):
+    # a solution / binding / argument whose value is falsy is a value like any other: bound values are asked for presence, not for truth
+    from .hvtruth import hv_truth
+
+    return hv_truth(prog)
+
+
 def run(prog: Program, tier: str) -> List[RuleResult]:
     from .c03 import domain_cache
 
     _cache.clear()
-    return [ep_thread(prog), ep_neg(prog), ep_filter(prog), ep_selected(prog), ep_union_pass(prog), ep_operand(prog), domain_cache(prog), ep_universal(prog), ep_empty(prog), ep_quant(prog), _ep_bound(prog), cmp_apply(prog)]
+    return [ep_thread(prog), ep_neg(prog), ep_filter(prog), ep_selected(prog), ep_union_pass(prog), ep_operand(prog), domain_cache(prog), ep_universal(prog), ep_empty(prog), ep_quant(prog), _ep_bound(prog), cmp_apply(prog), _live_iter(prog), _hv_truth(prog)]
